@@ -153,8 +153,9 @@ PROPS = {
     },
     "C13": {
         "level": "exploration",
-        "stages": [hist("ident", "ident::ident_c13", 12000, 400000)],
-        "rule": "case = one pair of parser-producible rules (a base rule over an adversarial string pool and a near-miss of it: permuted lists, a string moved across a section boundary, split/merged/swapped/sorted/duplicated command lines, added/removed/renamed path, or an independent rule); identity equality must coincide with equality of (target set, source set, command list), on the in-memory rules and again after rendering both (flat or bundled) and parsing with the real parser; distinct by the pair; non-trivial for every near-miss pair",
+        "stages": [hist("ident", "ident::ident_c13", 12000, 400000),
+                   dict(hist("universe", "ident::ident_c13", 0, 0, env={"VERIF_STAGE": "universe"}, quick_ms=120000, thorough_ms=120000), shards=1)],
+        "rule": "case = one pair of parser-producible rules (a base rule over an adversarial string pool and a near-miss of it: permuted lists, a string moved across a section boundary, split/merged/swapped/sorted/duplicated command lines, added/removed/renamed path, or an independent rule); identity equality must coincide with equality of (target set, source set, command list), on the in-memory rules and again after rendering both (flat or bundled) and parsing with the real parser; stage universe: all 93 312 rules with 1-2 targets, 1-2 sources and 1-2 command lines over eight strings chosen to confuse a serialisation (':' in front, behind, doubled; one string that is two others back to back; a leading space) must have pairwise different identities; distinct by the pair; non-trivial for every near-miss pair",
         "floor": {"quick": 10000, "thorough": 200000},
         "assumptions": ["SHA-256 collisions aside", "rules are parser-producible: no repeated entry and no file/directory clash inside a section, no empty or ':' lines"],
     },
